@@ -222,6 +222,8 @@ type Container struct {
 	Source  []byte // the tool's output
 	Script  any    // probe.Script (JSON-marshalled as is)
 	NoLocal bool   // do not add the local catalog (the package declares nothing else)
+	// LocalExtra: further declarations of the container's own package (a Go file without the package clause)
+	LocalExtra string
 
 	// results
 	CompileErr string
@@ -421,6 +423,11 @@ func (u *Universe) write(c *Container) error {
 	}
 	if !c.NoLocal {
 		if err := os.WriteFile(filepath.Join(d, "local.go"), []byte(LocalSource(c.Pkg)), 0o644); err != nil {
+			return err
+		}
+	}
+	if c.LocalExtra != "" {
+		if err := os.WriteFile(filepath.Join(d, "local_extra.go"), []byte("package "+c.Pkg+"\n\n"+c.LocalExtra), 0o644); err != nil {
 			return err
 		}
 	}
